@@ -9,3 +9,5 @@ open Bpmn.Props.C03
 #print axioms pg_run
 #print axioms Bpmn.Props.EngineSteps.par_step_holds
 #print axioms Bpmn.Props.EngineSteps.par_step_releases_all
+#print axioms Bpmn.Props.EngineSteps.par_join_waits
+#print axioms Bpmn.Props.EngineSteps.par_join_fires
